@@ -3,6 +3,12 @@ isolation re-runs of binding-A cases, witness bookkeeping."""
 import json, os, concurrent.futures as cf
 import lib
 
+# The specifications of these checks recurse over digit sequences. lib.tlc passes -Xss through
+# JAVA_TOOL_OPTIONS, which sizes TLC's worker threads but not the JVM's main thread (assumptions and
+# initial states are evaluated there, on a 1 MB stack: deep evaluations overflow it, depending on JIT
+# state). JDK_JAVA_OPTIONS is read by the java launcher itself and sizes the main thread too.
+os.environ.setdefault("JDK_JAVA_OPTIONS", "-Xss64m")
+
 
 def tlc_jobs(jobs, max_parallel=4):
     """jobs: {name: kwargs for lib.tlc (module, cfg, ...)} run concurrently; returns {name: TLCResult}.
